@@ -131,7 +131,15 @@ def run(ctx):
         spelling = rng.choice(SPELLINGS)
         ctx.count(f"cache_path_spelling[{spelling}]")
         xsteps = respell(rng, cache, steps, spelling)
+        parent_before = set(os.listdir(os.fsencode(os.path.dirname(cache))))
         xresps = hist.execute(ctx, xsteps)
+        # whatever the spelling, nothing may appear NEXT TO the cache directory (a temp area or index derived from a
+        # lossy or re-interpreted form of the path)
+        grown = set(os.listdir(os.fsencode(os.path.dirname(cache)))) - parent_before - {os.fsencode(os.path.basename(cache))}
+        if grown:
+            ctx.violation(f"A|{mode}|sibling-of-cache-created|{spelling}",
+                          f"direction A (cache path spelled {spelling}): the library created {sorted(grown)[:3]} next to the cache "
+                          f"directory", {"steps": [[x["mode"], x["req"]] for x in xsteps[:6]], "cache_path_spelling": spelling})
         resps = [r for st, r in zip(xsteps, xresps) if not st.get("harness")]
         model = Model()
         bad = False
